@@ -221,7 +221,6 @@ impl RequestBuilder {
     pub fn body(mut self, b: String) -> Self {
         self.body_len = b.len();
         self.body0 = if b.is_empty() { 0 } else { b.as_bytes()[0] };
-        core::mem::forget(b);
         self
     }
     pub async fn send(self) -> Result<Response, Error> {
